@@ -13,6 +13,7 @@ using namespace MEDDLY;
 #ifndef PESS
 #define PESS 0
 #endif
+#define NHSIZE 8
 #ifndef HMAX
 #define HMAX 4
 #endif
@@ -63,6 +64,11 @@ extern "C" void c06_headers()
   memstats ms; statset ss;
   node_headers H(*f, ms, ss);
   H.initialize();
+  // handle arrays are created at a fixed size through the arrays' own expand(); growth and
+  // shrinking of the handle list (expandHandleList / shrinkHandleList) are cut in this harness
+  // (assume false): after a merge their sizes become symbolic, which CBMC cannot allocate.
+  H.addresses->expand(NHSIZE); H.levels->expand(NHSIZE); H.cache_counts->expand(NHSIZE); H.incoming_counts->expand(NHSIZE);
+  H.a_size = NHSIZE; H.a_next_shrink = 0;
   NH = &H;
   for (int i = 0; i < HMAX; i++) { sh_state[i] = UNUSED; sh_in[i] = 0; sh_cc[i] = 0; deleted_calls[i] = 0; ever[i] = false; }
   int created = 0;
@@ -94,7 +100,7 @@ extern "C" void c06_headers()
           if (sh_in[i] == 1) vp_cover(2);    // revival of an unreachable node
         } else if (op == 2) {   // unlink
           vp_assume(sh_state[i] == ACTIVE && sh_in[i] > 0);
-          H.unlinkNode(i); sh_in[i]--;
+          sh_in[i]--; H.unlinkNode(i);
           if (sh_in[i] == 0) {
             if (sh_cc[i] == 0) {
               vp_assert(deleted_calls[i] == 1, "last unlink of an uncached node deletes it at once");
@@ -112,7 +118,7 @@ extern "C" void c06_headers()
           H.cacheNode(i); sh_cc[i]++;
         } else {                // compute table drops a reference
           vp_assume(sh_state[i] != UNUSED && sh_cc[i] > 0);
-          H.uncacheNode(i); sh_cc[i]--;
+          sh_cc[i]--; H.uncacheNode(i);
           if (sh_cc[i] == 0) {
             if (sh_state[i] == ZOMBIE) { vp_assert(deleted_calls[i] == 0, "zombie is not deleted twice"); sh_state[i] = UNUSED; vp_cover(6); }
             else if (sh_in[i] == 0) { vp_assert(deleted_calls[i] == 1, "optimistic: last uncache of an unreachable node deletes it"); sh_state[i] = UNUSED; vp_cover(7); }
